@@ -21,6 +21,8 @@ def _decls(tier, seed, fams, k8n=(2, 12)):
         out += C.k6()
     if "K9" in fams:
         out += C.k9()
+    if "KS" in fams:
+        out += C.ks()
     if "K8" in fams:
         out += C.k8(seed, k8n[1] if th else k8n[0])
     if not th:
@@ -73,7 +75,7 @@ def plan_C05(tier, seed):
 
 
 def plan_C03(tier, seed):
-    decls = _decls(tier, seed, ["K1", "K2", "K3", "K4", "K5", "K8", "K9"])
+    decls = _decls(tier, seed, ["K1", "K2", "K3", "K4", "K5", "K8", "K9", "KS"])
     th = tier == "thorough"
 
     def fill(m):
@@ -96,7 +98,7 @@ def plan_C03(tier, seed):
 
 def plan_C04(tier, seed):
     th = tier == "thorough"
-    decls = _decls(tier, seed, ["K1", "K4", "K8", "K9"])
+    decls = _decls(tier, seed, ["K1", "K4", "K8", "K9", "KS"])
     k2 = [d for d in C.k2() if d.name in ("k2_i8", "k2_u8", "k2_i8_mid", "k2_i64", "k2_u64")]
     k3 = [d for d in C.k3() if d.name in ("k3_i8_lo", "k3_u8_hi", "k3_i64_lo", "k3_i8_zero")]
     decls += k2 + k3
@@ -198,7 +200,7 @@ def plan_C07(tier, seed):
 
 def plan_C08(tier, seed):
     th = tier == "thorough"
-    decls = _decls(tier, seed, ["K1", "K4", "K5", "K8", "K9"])
+    decls = _decls(tier, seed, ["K1", "K4", "K5", "K8", "K9", "KS"])
     decls += [d for d in C.k2() if th or d.name in ("k2_i8", "k2_u16", "k2_i64", "k2_i8_mid")]
     decls += [d for d in C.k3() if d.name in ("k3_i8_lo", "k3_u64_hi", "k3_i16_zero")]
 
@@ -282,7 +284,8 @@ def plan_C09_pairs(tier, seed):
     decls += C.k8(seed, 4 if th else 2)
     full_pairs = [("M", "T"), ("M", "A"), ("T", "A"), ("R", "A"), ("I", "M"), ("R", "T")]
     steer = [("S_as", "T"), ("S_asfs", "M"), ("S_asn", "M"), ("S_itfs", "M"), ("S_it", "M"),
-             ("S_itr", "T"), ("X1", "X2"), ("FSa1", "T"), ("FSa1t", "M"), ("S_it", "I"), ("ITaf", "ITn")]
+             ("S_itr", "T"), ("X1", "X2"), ("FSa1", "T"), ("FSa1t", "M"), ("S_it", "I"), ("ITaf", "ITn"),
+             ("N", "M")]   # N: every item under a custom name (helpers referenced through the names table)
     out = []
     i = 0
     for d in decls:
@@ -291,6 +294,8 @@ def plan_C09_pairs(tier, seed):
             # rotate: every declaration gets the two big pairs and a third of the others
             h = sum(map(ord, d.name))
             pairs = [("M", "T"), ("T", "A")] + [p for j, p in enumerate(full_pairs[2:] + steer) if (j + h) % 3 == 0]
+            if d.family == "K1" and ("N", "M") not in pairs:
+                pairs.append(("N", "M"))
             if d.family == "K4":
                 pairs = [("M", "T"), ("T", "A"), ("X1", "X2"), ("FSa1", "T"), ("S_asfs", "M")]
         for ba, bb in pairs:
